@@ -165,6 +165,7 @@ func (s *seat) setExtra(extra string) (string, error) {
 	}
 	sort.Strings(did)
 	s.extra = extra
+	s.loaded = nil
 	return strings.Join(did, ", "), nil
 }
 
@@ -184,6 +185,7 @@ func (s *seat) setRev(rev, mt int) (string, error) {
 	}
 	what := fmt.Sprintf("files rewritten: revision %d -> %d, mtime %+d -> %+d", s.rev, rev, s.mt, mt)
 	s.p, s.nodes, s.rev, s.mt = q, nil, rev, mt
+	s.loaded = nil // a kept LOADED template is a snapshot of Load time: the caller loads again
 	return what, nil
 }
 
@@ -212,6 +214,7 @@ func (s *seat) setDeny(deny string) (string, error) {
 	denyFiles(s.fs, s.base, deny, fs.ErrPermission)
 	what := fmt.Sprintf("template files unreadable (permission error): %q -> %q", s.deny, deny)
 	s.deny = deny
+	s.loaded = nil
 	return what, nil
 }
 
@@ -358,6 +361,9 @@ func genEdits(t *rapid.T) Case {
 				}
 			}
 			st.Entry = rapid.SampledFrom(ce).Draw(t, "centry")
+			if st.Fail != "" && !failApplies(st.Entry, st.Fail) {
+				st.Fail = "ctx"
+			}
 		}
 		if st.K > 3 {
 			st.K = 3
